@@ -509,11 +509,20 @@ func oneRun(c *fw.Ctx, cert *tlsutil.Cert, index, nConns int) {
 			// not delivered: legitimate only if the listener was closed while it was pending (or the client
 			// failed before handing over); then it must have been closed
 			timedOut := false
-			var timedOutAt time.Duration
+			var timedOutAt, blocked time.Duration
 			for _, l := range p.server.Log() {
 				if l.Op == "read" && strings.Contains(l.Err, "timeout") && !timedOut {
-					timedOut, timedOutAt = true, l.T1
+					timedOut, timedOutAt, blocked = true, l.T1, l.T1-l.T0
 				}
+			}
+			if timedOut && blocked < 10*time.Millisecond {
+				// The matching deadline had passed before layer4 even asked for the next bytes (an expired deadline fails a
+				// read at once, also with data queued): it did not give up waiting for data, it ran out of time between
+				// reads - matching on this machine was slower than the 150-350 ms timeout allows. Giving up on a connection
+				// at the matching timeout is layer4's right (C05); only a connection that layer4 kept waiting on, for data
+				// that the client had long sent or was never going to send, is a lost hand-over.
+				c.Inconclusive("matching deadline passed between reads (layer4 starved)")
+				continue
 			}
 			if sent := time.Duration(p.sentAt.Load()); timedOut && (sent == 0 || sent > timedOutAt-2*time.Millisecond) {
 				// layer4 gave up at its matching deadline (150-350 ms) before this client had even written what it sends
